@@ -757,7 +757,7 @@ def _post_leaf(da, pipe):
     free = [d for d in da.dims if d != "time"]
     if kind == "isel":
         sel = {}
-        for d in free:
+        for d in free + (["time"] if pipe.get("seed", 0) % 2 and "time" in da.dims else []):
             n = da.sizes[d]
             a = min(n - 1, int(min(fa, fb) * n))
             b = max(a + 1, int(np.ceil(max(fa, fb) * n)))
